@@ -27,6 +27,14 @@ def witnesses():
     w = []
     # an exception raised inside a loop (over a dictionary, over a list, 每当) — directly, in a nested block, in a called method —
     # leaves the loop and reaches the handler of the body (or ends the program); nothing after the loop runs
+    # a fault while a definition of the body is being set up (a property default that fails, a name defined twice) is a fault of
+    # that body: its handler sees it
+    w.append((([], [Func("F", [], [Class("Cq", [("P", Arith("/", Num(1), Num(0)))], []), Display(Str("body")), Return(Num(1))],
+                         [("异常", [Display(Str("h")), Return(Num(2))])]),
+                    Display(Call("F", [])), Return(Num(0))], []), None, "witness"))
+    w.append((([], [Func("G", [], [Func("In", [], [Return(Num(1))]), Func("In", [], [Return(Num(2))]), Display(Str("body")), Return(Num(3))],
+                         [("异常", [Display(Str("h")), Return(Num(4))])]),
+                    Display(Call("G", [])), Return(Num(0))], []), None, "witness"))
     thrower = Func("T", [], [Throw("异常", [Str("t")]), Return(Num(1))], [])
     for target in (Map([("a", Num(1)), ("b", Num(2))]), Arr([Num(1), Num(2)])):
         for inner in ([Throw("异常", [Str("x")])], [Branch(Logic("eq", Var("V"), Num(2)), [Throw("异常", [Str("y")])])], [ExprS(Call("T", []))]):
